@@ -133,8 +133,9 @@ def flux_case(c):
             P, N, W = sphere_nodes(center, r, panels, 8)
         else:
             P, N, W = box_nodes(center, np.array(c["aspect"]) * r, c["rot"], panels, 8)
-        with common.time_limit(300):
-            B = np.asarray(src.getB(P)).reshape(-1, 3)
+        with common.time_limit(600):
+            # in slices: mesh / segment sources allocate many temporaries per (observer, face) row
+            B = np.concatenate([np.asarray(src.getB(P[i:i + 40000])).reshape(-1, 3) for i in range(0, len(P), 40000)])
         if not np.all(np.isfinite(B)):
             return ("nonfinite", f"{int((~np.isfinite(B).all(1)).sum())} non-finite integrand values", None)
         vals.append(float(np.sum(np.einsum("ij,ij->i", B, N) * W)))
